@@ -403,6 +403,26 @@ def steer(pkg, rng, with_dates):
         first.steps.append(("steertime", M.Union((("time", M.Prim("time")), ("int64", M.Prim("int64")), ("datetime", M.Prim("datetime"))), nullable=True, explicit=False), True))
 
 
+def add_zoo(first, pr_, want_cpp):
+    # arrays over every kind of element NumPy holds as an object or as a sub-array - and the same arrays inside a vector,
+    # an optional and a map: what one generated reader hands out for them has to be accepted by every generated writer
+    zr_ = pr_.fork("zoo")
+    znum = lambda: M.Prim(zr_.choice(["float32", "float64", "uint8", "int16", "int32", "uint64"]))
+    zoo = [M.Vec(znum()), M.Vec(znum(), zr_.randint(1, 3)), M.Prim("string"), M.Opt(znum()), M.Arr(znum(), ((None, 2), (None, 2))),
+           M.Vec(M.Prim("string")), M.Vec(M.Prim("bool")), M.Opt(M.Prim("string")), M.Vec(M.Vec(znum(), 2))]
+    if not want_cpp:
+        zoo += [M.Vec(M.Opt(znum())), M.Map(M.Prim("string"), znum()), M.Union((("int32", M.Prim("int32")), ("string", M.Prim("string")))),
+                M.Arr(znum(), None), M.Opt(M.Arr(znum(), 1)), M.Vec(M.Prim(zr_.choice(["complexfloat32", "datetime", "date"]))),
+                M.Union((("float32", M.Prim("float32")), ("vec", M.Vec(znum()))), nullable=True, explicit=True)]
+    for zk_, zt_ in enumerate(zoo):
+        if zr_.chance(0.35):
+            za_ = M.Arr(zt_, zr_.choice([None, None, 1, 2, ((None, 2),)]))
+            zw_ = zr_.choice([za_, za_, M.Vec(za_), M.Opt(za_), M.Map(M.Prim("string"), za_)])
+            if isinstance(zw_, M.Opt) and isinstance(zt_, M.Union):
+                zw_ = za_      # (yardl reports `[null, !array {items: [int32, string]}]` as a union inside a union - a verdict matter, C09)
+            first.steps.append(("steerzoo%d" % zk_, zw_, zr_.chance(0.5)))
+
+
 def model_task(task, ybin, root, prop):
     seed, i, quick = task["seed"], task["i"], task["tier"] == "quick"
     rng = M.derive(seed, prop, i)
@@ -417,6 +437,10 @@ def model_task(task, ybin, root, prop):
     pkg = sw.stream_package(rng.next(), cfg=cfg, for_cpp=want_cpp)
     if json_involved:
         steer(pkg, rng.fork("steer"), with_dates=not want_cpp)
+    if prop == "C02":
+        protos_ = [d for d in pkg.defs() if isinstance(d, M.Protocol)]
+        if protos_:
+            add_zoo(protos_[0], rng.fork("steerpod"), want_cpp)
     if prop in ("C01", "C03"):
         # every model read in binary carries streams of numeric arrays (whole-buffer fast paths of the runtimes)
         protos0 = [d for d in pkg.defs() if isinstance(d, M.Protocol)]
@@ -454,21 +478,7 @@ def model_task(task, ybin, root, prop):
             # arrays of the widest integers, filled (below) with single high bits: the values at which a varint gets one byte longer
             protos0[0].steps.append(("steerarru64", M.Arr(M.Prim(pr_.choice(["uint64", "uint64", "size"])), pr_.choice([None, 1, 2])), pr_.chance(0.3)))
             protos0[0].steps.append(("steerarri64", M.Arr(M.Prim("int64"), pr_.choice([None, 1, ((None, 4),), ((None, 2), (None, 3))])), pr_.chance(0.3)))
-            # arrays over every kind of element NumPy holds as an object or as a sub-array - and the same arrays inside a vector,
-            # an optional and a map: what one generated reader hands out for them has to be accepted by every generated writer
-            zr_ = pr_.fork("zoo")
-            znum = lambda: M.Prim(zr_.choice(["float32", "float64", "uint8", "int16", "int32", "uint64"]))
-            zoo = [M.Vec(znum()), M.Vec(znum(), zr_.randint(1, 3)), M.Prim("string"), M.Opt(znum()), M.Arr(znum(), ((None, 2), (None, 2))),
-                   M.Vec(M.Prim("string")), M.Vec(M.Prim("bool")), M.Opt(M.Prim("string")), M.Vec(M.Vec(znum(), 2))]
-            if not want_cpp:
-                zoo += [M.Vec(M.Opt(znum())), M.Map(M.Prim("string"), znum()), M.Union((("int32", M.Prim("int32")), ("string", M.Prim("string")))),
-                        M.Arr(znum(), None), M.Opt(M.Arr(znum(), 1)), M.Vec(M.Prim(zr_.choice(["complexfloat32", "datetime", "date"]))),
-                        M.Union((("float32", M.Prim("float32")), ("vec", M.Vec(znum()))), nullable=True)]
-            for zk_, zt_ in enumerate(zoo):
-                if zr_.chance(0.35):
-                    za_ = M.Arr(zt_, zr_.choice([None, None, 1, 2, ((None, 2),)]))
-                    zw_ = zr_.choice([za_, za_, M.Vec(za_), M.Opt(za_), M.Map(M.Prim("string"), za_)])
-                    protos0[0].steps.append(("steerzoo%d" % zk_, zw_, zr_.chance(0.5)))
+            add_zoo(protos0[0], pr_, want_cpp)
             if pr_.fork("bigschema").chance(0.35):
                 # a schema text of twenty-odd kilobytes: an enumeration with several hundred symbols, used by the first protocol
                 pkg.files[fn0].append(M.Enum("AaaBigCodes", "uint16", [("code%03d" % k_, k_) for k_ in range(pr_.fork("bigschema2").randint(620, 900))]))
